@@ -1,6 +1,9 @@
 package main
 
 import (
+	"crypto/rand"
+	"math/big"
+	"time"
 	stdx509 "crypto/x509"
 	"crypto/x509/pkix"
 	"encoding/asn1"
@@ -432,6 +435,108 @@ func init() {
 					zlint.LintOcspResponse(r)
 				}()
 			}
+		}
+		// (6) directed CRLs and OCSP responses (the corpus has only a handful): hostile reason codes, entry extensions,
+		// missing / odd CRL extensions, response statuses and times.  These kinds have no recovery net.
+		k := getKit()
+		reasonCodes := []int{-1, -128, -1 << 20, 0, 1, 2, 3, 4, 5, 6, 7, 8, 9, 10, 11, 12, 127, 128, 255, 1 << 20}
+		nCrl := 120
+		if tier() == "thorough" {
+			nCrl = 2000
+		}
+		for i := 0; i < nCrl; i++ {
+			tmpl := &stdx509.RevocationList{Number: big.NewInt(int64(rng.Intn(1000))), ThisUpdate: time.Date(2024, 1, 1+rng.Intn(20), 0, 0, 0, 0, time.UTC)}
+			tmpl.NextUpdate = tmpl.ThisUpdate.Add(time.Duration(1+rng.Intn(400)) * 24 * time.Hour)
+			if rng.Intn(8) == 0 {
+				tmpl.Number = new(big.Int).Lsh(big.NewInt(1), 170)
+			}
+			for j := rng.Intn(4); j > 0; j-- {
+				e := stdx509.RevocationListEntry{SerialNumber: big.NewInt(int64(1 + rng.Intn(1<<30))), RevocationTime: tmpl.ThisUpdate.Add(-time.Duration(rng.Intn(1000)) * time.Hour)}
+				if rng.Intn(3) != 0 {
+					e.ReasonCode = pick(rng, reasonCodes)
+				}
+				if rng.Intn(4) == 0 {
+					e.ExtraExtensions = append(e.ExtraExtensions, pkix.Extension{Id: asn1.ObjectIdentifier{2, 5, 29, 24}, Value: pick(rng, [][]byte{{0x18, 0x0f, '2', '0', '2', '3', '0', '1', '0', '1', '0', '0', '0', '0', '0', '0', 'Z'}, {0x18, 0x00}, {0x05, 0x00}})})
+				}
+				if rng.Intn(6) == 0 {
+					e.ExtraExtensions = append(e.ExtraExtensions, pkix.Extension{Id: asn1.ObjectIdentifier{2, 5, 29, 21}, Value: pick(rng, [][]byte{{0x0a, 0x01, 0xff}, {0x0a, 0x01, 0x80}, {0x0a, 0x02, 0xff, 0x7f}, {0x0a, 0x00}, {0x0a, 0x01, 0x07}, {0x02, 0x01, 0x01}})})
+					e.ReasonCode = 0
+				}
+				tmpl.RevokedCertificateEntries = append(tmpl.RevokedCertificateEntries, e)
+			}
+			switch rng.Intn(6) {
+			case 0:
+				tmpl.ExtraExtensions = append(tmpl.ExtraExtensions, pkix.Extension{Id: asn1.ObjectIdentifier{2, 5, 29, 28}, Critical: true, Value: []byte{0x30, 0x00}})
+			case 1:
+				tmpl.ExtraExtensions = append(tmpl.ExtraExtensions, pkix.Extension{Id: asn1.ObjectIdentifier{2, 5, 29, 46}, Value: []byte{0x30, 0x00}})
+			case 2:
+				tmpl.ExtraExtensions = append(tmpl.ExtraExtensions, pkix.Extension{Id: asn1.ObjectIdentifier{2, 5, 29, 27}, Critical: true, Value: []byte{0x02, 0x01, 0x01}})
+			case 3:
+				tmpl.ExtraExtensions = append(tmpl.ExtraExtensions, pkix.Extension{Id: asn1.ObjectIdentifier{2, 5, 29, 18}, Value: []byte{0x30, 0x00}})
+			}
+			der, err := stdx509.CreateRevocationList(rand.Reader, tmpl, k.caCert, k.caKey)
+			if err != nil {
+				rejected++
+				continue
+			}
+			crl, err := safeParseCRL(der)
+			if err != nil {
+				rejected++
+				classes["rejected by parser: generated crl"]++
+				continue
+			}
+			linted++
+			classes["linted: generated crl"]++
+			func() {
+				defer func() {
+					if p := recover(); p != nil {
+						var codes []int
+						for _, e := range tmpl.RevokedCertificateEntries {
+							codes = append(codes, e.ReasonCode)
+						}
+						out.Violate("C02|panic-escapes:crl", fmt.Sprintf("LintRevocationList panicked on a generated CRL (entry reason codes %v): %v", codes, p), map[string]interface{}{"der": hexs(der), "reason_codes": codes}, nil, nil)
+					}
+				}()
+				if m := panicMarkers(zlint.LintRevocationList(crl)); len(m) > 0 {
+					out.Violate("C02|panicked:crl", m[0], map[string]interface{}{"der": hexs(der)}, nil, nil)
+				}
+			}()
+		}
+		nOcsp := 80
+		if tier() == "thorough" {
+			nOcsp = 1000
+		}
+		for i := 0; i < nOcsp; i++ {
+			now := time.Date(2025, 2, 1+rng.Intn(20), rng.Intn(24), 0, 0, 0, time.UTC)
+			t := ocsp.Response{Status: pick(rng, []int{ocsp.Good, ocsp.Revoked, ocsp.Unknown}), SerialNumber: big.NewInt(int64(1 + rng.Intn(1<<20))),
+				ThisUpdate: now.Add(time.Duration(rng.Intn(5)-2) * time.Hour), ProducedAt: now, Certificate: nil}
+			if rng.Intn(3) != 0 {
+				t.NextUpdate = now.Add(time.Duration(rng.Intn(200)-20) * time.Hour)
+			}
+			if t.Status == ocsp.Revoked {
+				t.RevokedAt = now.Add(-time.Hour)
+				t.RevocationReason = pick(rng, []int{0, 1, 5, 7, 10, 11, 255})
+			}
+			der, err := ocsp.CreateResponse(k.caCert, k.caCert, t, k.caKey)
+			if err != nil {
+				rejected++
+				continue
+			}
+			r, err := safeParseOCSP(der)
+			if err != nil {
+				rejected++
+				continue
+			}
+			linted++
+			classes["linted: generated ocsp"]++
+			func() {
+				defer func() {
+					if p := recover(); p != nil {
+						out.Violate("C02|panic-escapes:ocsp", fmt.Sprintf("LintOcspResponse panicked on a generated response: %v", p), map[string]interface{}{"der": hexs(der)}, nil, nil)
+					}
+				}()
+				zlint.LintOcspResponse(r)
+			}()
 		}
 		out.Stats["linted"] = linted
 		out.Stats["rejected_by_parser"] = rejected
